@@ -185,7 +185,9 @@ fn draw_app(w: &mut World, i: usize) -> (App, Vec<u32>) {
         app.cohort.id = Some(format!("preset-cohort-{i}"));
     }
     if w.draws.chance(&format!("{key}/preset.hint"), pre) {
-        app.cohort.hint = Some(format!("preset-hint-{i}"));
+        // (one in three with characters outside ASCII: the bytes put on the wire, the bytes kept
+        // for CUP and the bytes handed to the installer must still be the same)
+        app.cohort.hint = Some(if w.draws.draw(&format!("{key}/preset.hint.nonascii"), 3) == 2 { format!("pr\u{e9}set-hint-{i}-\u{6e20}\u{9053}") } else { format!("preset-hint-{i}") });
     }
     if w.draws.chance(&format!("{key}/preset.name"), pre) {
         app.cohort.name = Some(format!("preset-name-{i}"));
@@ -195,7 +197,7 @@ fn draw_app(w: &mut World, i: usize) -> (App, Vec<u32>) {
     }
     let ex = w.profile.extra_fields_permille;
     if w.draws.chance(&format!("{key}/extra"), ex) {
-        app.extra_fields.insert("ap".to_string(), format!("track-{i}"));
+        app.extra_fields.insert("ap".to_string(), if w.draws.draw(&format!("{key}/extra.nonascii"), 3) == 2 { format!("tr\u{e4}ck-{i}\u{1f600}") } else { format!("track-{i}") });
         if w.draws.draw(&format!("{key}/extra2"), 2) == 1 {
             app.extra_fields.insert("product_id".to_string(), "p\"q".to_string());
         }
@@ -334,7 +336,15 @@ fn draw_setup(w: &mut World) -> Setup {
                 }
                 1 => -((1 + w.draws.draw(&format!("setup/clock_jump#{j}/v"), 1000) as i128) * 3600 * SEC as i128),
                 2 => -(1_700_000_000i128 + 86400 * 365 * 3) * SEC as i128,
-                3 => 1 + w.draws.draw(&format!("setup/clock_jump#{j}/v"), 999) as i128,
+                3 => {
+                    // less than a microsecond, either way
+                    let v = 1 + w.draws.draw(&format!("setup/clock_jump#{j}/v"), 999) as i128;
+                    if w.draws.draw(&format!("setup/clock_jump#{j}/back"), 2) == 1 {
+                        -v
+                    } else {
+                        v
+                    }
+                }
                 _ => (i64::MAX as i128) * 1000 + 17,
             };
             w.jumps.push((at, delta));
@@ -547,6 +557,14 @@ fn run_life(world: &Shared, setup: &Setup, steps: &mut u64) -> LifeEnd {
         // later lifetimes can crash too, with a bias towards their first interactions (recovery paths)
         let mut w = lock(world);
         let life = w.life;
+        let outage = w.profile.net.outage_permille;
+        w.server.outage_status = if w.draws.chance(&format!("L{life}/outage"), outage) {
+            w.stat("net.outage_lifetime");
+            Some([503u16, 429, 500, 404, 302][w.draws.draw(&format!("L{life}/outage.status"), 5) as usize])
+        } else {
+            None
+        };
+        w.server.outage_plain = w.server.outage_status.is_some() && w.draws.draw(&format!("L{life}/outage.plain"), 2) == 0;
         if life > 0 && w.crash_at.is_none() {
             let cp = w.profile.crash_permille;
             if w.draws.chance(&format!("L{life}/crash/enabled"), cp) {
@@ -643,6 +661,22 @@ fn run_life(world: &Shared, setup: &Setup, steps: &mut u64) -> LifeEnd {
     let mut client_handles: Vec<Option<ControlHandle>> =
         setup.client_reqs.iter().map(|_| handle.clone()).collect();
     let mut spare_handle: Option<ControlHandle> = None;
+    // a client may make all its requests through one and the same handle object (instead of a
+    // fresh clone per request); it may also abandon a request it has started (drop the future)
+    let mut sticky_handles: Vec<Option<std::rc::Rc<futures::lock::Mutex<ControlHandle>>>> = {
+        let mut w = lock(world);
+        let life = w.life;
+        let rate = w.profile.sticky_handle_permille;
+        (0..setup.client_reqs.len())
+            .map(|c| {
+                if w.draws.chance(&format!("L{life}/client#{c}/sticky"), rate) {
+                    handle.clone().map(|h| std::rc::Rc::new(futures::lock::Mutex::new(h)))
+                } else {
+                    None
+                }
+            })
+            .collect()
+    };
     let mut clients: Vec<ClientFut> = vec![];
     let mut neighbours: Vec<(u32, LocalBoxFuture<'static, ()>, Arc<WakeFlag>, bool)> = vec![];
     let mut checks_done = 0u32;
@@ -828,15 +862,39 @@ fn run_life(world: &Shared, setup: &Setup, steps: &mut u64) -> LifeEnd {
                     let source = setup.client_reqs[c as usize][r as usize].source;
                     lock(world).rec(Kind::CtlInvoke { client: c, req: r, source: conv::src(source) });
                     lock(world).stat("ctl.request");
-                    let fut = async move {
-                        let mut h = h;
-                        h.start_update_check(CheckOptions { source }).await
-                    }
-                    .boxed_local();
+                    let sticky = sticky_handles.get(c as usize).and_then(|s| s.clone());
+                    let fut = match sticky {
+                        Some(rc) => {
+                            lock(world).stat("ctl.request_through_the_clients_one_handle");
+                            async move {
+                                let mut g = rc.lock().await;
+                                g.start_update_check(CheckOptions { source }).await
+                            }
+                            .boxed_local()
+                        }
+                        None => async move {
+                            let mut h = h;
+                            h.start_update_check(CheckOptions { source }).await
+                        }
+                        .boxed_local(),
+                    };
                     let flag = WakeFlag::new();
                     let mut cf = ClientFut { client: c, req: r, fut, flag, poll_scheduled: false };
                     poll_client(world, &mut cf);
-                    clients.push(cf);
+                    // the caller gives up on the request it has just started
+                    let abandon = cf.client != u32::MAX && {
+                        let mut w = lock(world);
+                        let life = w.life;
+                        let rate = w.profile.abandon_request_permille;
+                        w.draws.chance(&format!("L{life}/client#{c}/req#{r}/abandon"), rate)
+                    };
+                    if abandon {
+                        lock(world).stat("ctl.request_abandoned");
+                        lock(world).rec(Kind::CtlAbandon { client: c, req: r });
+                        drop(cf);
+                    } else {
+                        clients.push(cf);
+                    }
                     clients.retain(|cf| cf.client != u32::MAX);
                 }
             }
@@ -854,6 +912,9 @@ fn run_life(world: &Shared, setup: &Setup, steps: &mut u64) -> LifeEnd {
                 advance(world, ev.t);
                 lock(world).stat("proc.handles_dropped");
                 handle = None;
+                for s in sticky_handles.iter_mut() {
+                    *s = None;
+                }
                 for (i, h) in client_handles.iter_mut().enumerate() {
                     if h.take().is_some() {
                         lock(world).rec(Kind::CtlHandleDrop { client: i as u32 });
@@ -985,6 +1046,7 @@ fn run_life(world: &Shared, setup: &Setup, steps: &mut u64) -> LifeEnd {
     drop(stream);
     drop(handle);
     drop(client_handles);
+    drop(sticky_handles);
     drop(spare_handle);
     {
         let mut w = lock(world);
